@@ -17,7 +17,7 @@ let kind_of s =
   match s with
   | "Fail" -> KFail | "FailLogged" -> KFailLogged | "GetattrFail" -> KGetattrFail | "GetattrSelf" -> KGetattrSelf
   | "RetSelf" -> KRetSelf | "EqType" -> KEqType | "NeNotEq" -> KNeNotEq | "HashType" -> KHashType
-  | "IterEmpty" -> KIterEmpty | "DebugStr" -> KDebugStr | "StrOfSelf" -> KStrOfSelf | "HashNone" -> KHashNone
+  | "IterEmpty" -> KIterEmpty | "DebugStr" -> KDebugStr | "StrOfSelf" -> KStrOfSelf | "EscStrOfSelf" -> KEscStrOfSelf | "HashNone" -> KHashNone
   | "Init" -> KInit | "Message" -> KMessage | "AiterEmpty" -> KAiterEmpty | "Other" -> KOther
   | "ConstVStrEmpty" -> KRetConst VStrEmpty | "ConstVStrOther" -> KRetConst VStrOther | "ConstVInt0" -> KRetConst VInt0
   | "ConstVIntOther" -> KRetConst VIntOther | "ConstVTrue" -> KRetConst VTrue | "ConstVFalse" -> KRetConst VFalse
